@@ -3,6 +3,7 @@ package props
 import (
 	"fmt"
 	"math"
+	"sort"
 
 	. "rdmverif/engine"
 )
@@ -58,6 +59,29 @@ func c16Check(c *Case) []Violation {
 	reps := asL(t.props["reversedPreferenceCriteria"])
 	if len(reps) != k {
 		return []Violation{viol(c, "C16/count", "%d criteria reversed, expected k=%d of %d", len(reps), k, n)}
+	}
+	// "the same count/ordering rule as omission": a criteriaOmission with the very same options in place of the reversal
+	// (same request, same earlier biases) takes exactly the criteria the reversal selects — whatever the ordering and seed
+	if k > 0 && k < n {
+		req2 := asM(deepCopy(req))
+		bs2 := asL(req2["biases"])
+		asM(bs2[len(bs2)-1])["name"] = "criteriaOmission"
+		if t2 := lastTransition(M(req2), nil); t2.err == nil {
+			var om, rv []string
+			for _, o := range asL(t2.props["omittedCriteria"]) {
+				om = append(om, asS(asM(o)["id"]))
+			}
+			for _, r := range reps {
+				rv = append(rv, asS(asM(r)["id"]))
+			}
+			sort.Strings(om)
+			sort.Strings(rv)
+			if !sameStrings(om, rv) {
+				vs = append(vs, viol(c, "C16/not-omissions-selection", "with options %v the reversal selects %v, an omission with the same options takes %v", props, rv, om))
+			}
+		} else {
+			stat("omission_twin_failed")
+		}
 	}
 	sel := map[string]bool{}
 	for _, r := range reps {
@@ -285,7 +309,7 @@ func c16Run(s *Shard) {
 	sampled := false
 	for _, method := range allMethods {
 		for _, subset := range []bool{false, true} {
-			for variant := 0; variant < 8; variant++ { // observed range, declared range, c1 strictly negative, c3 single-valued, undeclared extra values, c3 at 1e-9 scale, never-considered alternatives beyond both ends
+			for variant := 0; variant < 9; variant++ { // observed range, declared range, c1 strictly negative, c3 single-valued, undeclared extra values, c3 at 1e-9 scale, never-considered alternatives beyond both ends
 				root := rootRequest(method, subset, variant == 1)
 				if variant == 2 {
 					root = negativeVariant(root)
@@ -300,6 +324,12 @@ func c16Run(s *Shard) {
 				}
 				if variant == 6 {
 					root = wideVariant(root)
+				}
+				if variant == 8 {
+					if method == "choquetIntegral" {
+						continue
+					}
+					root = typelessVariant(root)
 				}
 				if variant == 7 {
 					// nobody is considered (an explicitly empty choseToMake): every alternative is "known only"
